@@ -496,6 +496,28 @@ func TestSemaBubble(t *testing.T) {
 					what = fmt.Sprintf("Acquire #%d returned %v, the context error is %v", i, errs[i], ctx.Err())
 				}
 			}
+			// "Release never blocks": held+2 Releases leave a spin barrier together (two of them are spurious);
+			// every one of them must have returned at quiescence
+			nrel := held + 2
+			var rel atomic.Int32
+			var relReady atomic.Int32
+			for i := 0; i < nrel; i++ {
+				go func() {
+					relReady.Add(1)
+					for relReady.Load() < int32(nrel) {
+					}
+					sem.Release()
+					rel.Add(1)
+				}()
+			}
+			synctest.Wait()
+			if got := int(rel.Load()); got != nrel && what == "" {
+				what = fmt.Sprintf("%d of %d simultaneous Release calls (%d holders) are blocked", nrel-got, nrel, held)
+				// hand the blocked receivers something so that the bubble can end
+				for i := 0; i < nrel; i++ {
+					go func() { _ = sem.Acquire(context.Background()) }()
+				}
+			}
 			// unblock whatever is still stuck so that the bubble can end
 			for i := 0; i < k; i++ {
 				sem.Release()
